@@ -6,6 +6,7 @@ import (
 	"fmt"
 	"os"
 	"runtime"
+	"runtime/debug"
 	"runtime/pprof"
 	"strings"
 	"sync/atomic"
@@ -33,6 +34,7 @@ func Main(args []string) int {
 		}
 	}
 	harness.SilenceStdout()
+	debug.SetGCPercent(400)
 	out := harness.Out()
 	if flags.Replay != "" {
 		return replay(flags.Replay, out)
